@@ -285,6 +285,14 @@ func c06Run(c *fw.C, caseID string) {
 			}
 		}
 		c06Consensus(n, forkPoint, top+40)
+		// what a peer asks for: is this momentum known, give it to me, which hashes follow it
+		for hh := forkPoint; hh <= top; hh++ {
+			if m, _ := n.Chain.GetFrontierMomentumStore().GetMomentumByHeight(hh); m != nil {
+				_ = n.Bridge.HasBlock(m.Hash)
+				_ = n.Bridge.GetBlock(m.Hash)
+				_, _ = n.Bridge.GetBlockHashesFromHash(m.Hash, 8)
+			}
+		}
 	}
 	warm(S)
 	for S.Height() < A.Height() {
@@ -303,6 +311,12 @@ func c06Run(c *fw.C, caseID string) {
 	}
 	warm(S)
 
+	c06AskedHashes = nil
+	for hh := forkPoint + 1; hh <= A.Height(); hh++ {
+		if d := A.Detailed(hh); d != nil {
+			c06AskedHashes = append(c06AskedHashes, d.Momentum.Hash)
+		}
+	}
 	// K: apply X then roll back directly. Compared logically (present keys) and raw: every LevelDB key and value of the
 	// stopped node, so that a key written back as "present but empty", a left-over undo record or a tombstone shows
 	K.Stop()
@@ -463,6 +477,9 @@ func c06Run(c *fw.C, caseID string) {
 	}
 }
 
+// c06AskedHashes: momentums of the abandoned branch (the switching node held, and served, them before the switch)
+var c06AskedHashes []types.Hash
+
 // c06NoTombstones drops the deletion markers of the store's encoding (a key with an EMPTY raw value is a deleted key;
 // a rollback leaves such markers where the abandoned momentum had created keys — by design, and invisible to every
 // reader). What remains must be identical byte for byte: a key written back as present-but-empty has the raw value 00.
@@ -588,6 +605,26 @@ func c06Compare(c *fw.C, S, R *simnet.Node, forkPoint uint64, when string, depth
 		}
 		sort.Strings(l)
 		return l
+	}
+	// what the node serves to peers about momentums of either branch
+	var asked []types.Hash
+	asked = append(asked, c06AskedHashes...)
+	for hh := forkPoint; hh <= R.Height(); hh++ {
+		if m, _ := R.Chain.GetFrontierMomentumStore().GetMomentumByHeight(hh); m != nil {
+			asked = append(asked, m.Hash)
+		}
+	}
+	for _, h := range asked {
+		c.Eval(1)
+		hs, hr := S.Bridge.HasBlock(h), R.Bridge.HasBlock(h)
+		gs, gr := S.Bridge.GetBlock(h) != nil, R.Bridge.GetBlock(h) != nil
+		ls, _ := S.Bridge.GetBlockHashesFromHash(h, 16)
+		lr, _ := R.Bridge.GetBlockHashesFromHash(h, 16)
+		if hs != hr || gs != gr || fmt.Sprint(ls) != fmt.Sprint(lr) {
+			c.Violation("served-to-peers-differs "+when, map[string]interface{}{"momentum": h.String(), "has_block": []bool{hs, hr}, "get_block_non_nil": []bool{gs, gr}, "hashes_from": []int{len(ls), len(lr)},
+				"note": "first value: the node that switched branches, second: the node that only saw the adopted branch"})
+			return
+		}
 	}
 	ps, pr := pool(S), pool(R)
 	c.Eval(1)
